@@ -77,6 +77,20 @@ META["C05"] = {
     "require": {"quick": {"cases_with_queued_then_started_inner": 5000, "operators_covered": 10}, "thorough": {"cases_with_queued_then_started_inner": 100000, "operators_covered": 10}},
 }
 
+META["C06"] = {
+    "title": "Subjects deliver each item once, in order, to exactly the current subscribers",
+    "rule": "cases = (subject type in {Subject, SubjectThreads, MutRefItemSubject, MutRefErrSubject, MutRefItemErrSubject}, random history of length <= 12 quick / <= 30 thorough over subscribe / unsubscribe-one / next / error / complete / clone / retain / unsubscribe-subject / arm-a-subscribe-from-inside-the-callback, <= 3 regular subscribers plus nested ones). Every history is executed on the real subject and, in lock step, on a sequential multicast model (for the &mut variants the probe mutates the item/error and the model tracks the mutation chain and the value handed back to the emitter). After every step past a terminal/unsubscribe the flags is_finished/is_closed/is_empty/len are compared. Non-trivial: >= 2 subscribers and a join or leave happened between two emissions; distinct = hash(type, history). The SubjectThreads two/three-thread part is run under the baton scheduler (thread_* counters).",
+    "assumptions": COMMON_ASSUME + [
+        "len()/is_empty() are only checked where the statement speaks (after a terminal or unsubscribe())",
+        "a subscriber that joins after the subject terminated receives nothing (what the statement says: it delivers nothing after a terminal)",
+    ],
+    "technique": "runtime monitoring: recording probes on the real subjects under random operation histories, compared event-by-event with an executable sequential multicast model; baton-scheduled thread histories with an interval-based must/must-not-receive oracle",
+    "level_text": "Exploration: each sampled history is executed and every subscriber's trace and the subject's flags are compared with the model.",
+    "level_note": "Trusted: the multicast model in harness/src/props/c06.rs, probes, baton scheduler.",
+    "design_ref": "DESIGN.md §5 C06",
+    "require": {"quick": {"subject_types_covered": 5, "histories_with_subscribe_inside_callback": 2000}, "thorough": {"subject_types_covered": 5}},
+}
+
 
 # properties without a check yet are listed here with the reason; the list shrinks as checks land
 ALL_IDS = ['C01', 'C02', 'C03', 'C04', 'C05', 'C06', 'C07', 'C08', 'C09', 'C10', 'C11', 'C12', 'C13', 'C14', 'C15', 'C16', 'C17', 'C18', 'C19', 'C20']
